@@ -30,11 +30,17 @@ THEOREMS = [
     "OllamaVerif.C19.retained_is_suffix_in_order",
     "OllamaVerif.C19.retained_first_failure",
     "OllamaVerif.C19.retained_longest_fitting",
+    "OllamaVerif.C19.tokenizer_calls",
     "OllamaVerif.C19.images_once_indexed",
+    "OllamaVerif.C19.tags_in_owner",
+    "OllamaVerif.C19.pieces_faithful",
     "OllamaVerif.C19.dropped_images_not_sent",
     "OllamaVerif.C19.system_kept_fixed",
     "OllamaVerif.C19.system_kept_partial",
+    "OllamaVerif.C19.system_pinned_exact",
+    "OllamaVerif.C19.measured_prompt_fits_fixed",
     "OllamaVerif.C19.F4_system_at_cut_dropped",
+    "OllamaVerif.C19.F4b_legacy_overwrite",
 ]
 OVERLAY = {"server/zz_verif_c19_test.go": "server/zz_verif_c19_test.go"}
 
